@@ -1526,6 +1526,22 @@ def rule_exponent_bound(col, facts):
                             K = strip_casts(c[3])[1]
                     col.check(R, "parse_number:explicit_exponent", K is not None and K * 36 + 36 < (1 << 62),
                               "the exponent accumulation `e = e*radix + digit` is not guarded by `e < K` for a small constant K (found %s): later `exponent += explicit_exponent` can overflow (panic with overflow checks, wrong sign without)" % K, g.loc(st[3]))
+        # the same accumulation written with a method (`e.saturating_mul(radix)`, `wrapping_mul`, `checked_mul`): a
+        # saturated value is as unusable for the later additions as an overflowed one, the bound is still needed
+        for bb, c, a, d, t in g.calls():
+            if last_seg(callee_name(c)) not in ("saturating_mul", "wrapping_mul", "checked_mul", "overflowing_mul") or len(a) != 2:
+                continue
+            if not any(last_seg(x[1]) == "exponent_radix" for x in expr_calls(op_expr(g, a[1]))):
+                continue
+            n += 1
+            lhs = strip_casts(op_expr(g, a[0]))
+            K = None
+            for _d, c2, p in path_conditions(g, bb):
+                c2 = strip_casts(c2)
+                if c2[0] == "bin" and c2[1] == "Lt" and p is True and strip_casts(c2[3])[0] == "k" and G.norm(strip_casts(c2[2])) == G.norm(lhs):
+                    K = strip_casts(c2[3])[1]
+            col.check(R, "parse_number:explicit_exponent", K is not None and K * 36 + 36 < (1 << 62),
+                      "the exponent accumulation `e = e*radix + digit` is not guarded by `e < K` for a small constant K (found %s): later `exponent += explicit_exponent` can overflow (panic with overflow checks, wrong sign without)" % K, g.loc(g.blocks[bb]["ts"]))
     col.floor(R, "exponent accumulation sites", n, 1)
 
 
